@@ -594,6 +594,14 @@ func DriverMain(id, tier string, seed int64, exe, raceExe, replay string) int {
 	for _, sig := range knownSigs {
 		fmt.Printf("KNOWN-FINDING: property=%s %s [%s]\n", id, knownSeen[sig], sig)
 	}
+	// listed findings this run did not reach (other tier, other seed): said so, never counted as observed
+	for _, k := range known.Findings {
+		if k.Property == id {
+			if _, seen := knownSeen[k.Signature]; !seen {
+				fmt.Printf("KNOWN-FINDING-NOT-REACHED-BY-THIS-RUN: property=%s [%s]\n", id, k.Signature)
+			}
+		}
+	}
 	seenSig := map[string]int{}
 	nfile := 0
 	for _, v := range real {
